@@ -16,3 +16,34 @@ package meta
 //@   site call os.RemoveAll #3:
 //@     assert [tags-tree-not-used-by-a-survivor] implies(entriesRemoved > 0, forall(k, 0, len(preservedEntries), preservedEntries[k].TTreeDir != ttreeDir))
 //@ end
+
+// C14 (the metrics-meta file lists every rotated metrics segment, exactly once):
+// the file is appended to by AddMetricsMetaEntry and REPLACED (temp file +
+// rename) by RemoveMetricsSegments.  An append that opened the file before it
+// held mMetaLock could write into the replaced inode and its entry would be
+// lost, so the file is opened, written and synced while the lock is held.
+// Sequential lock discipline only: ghost mmLockHeld is 1 from the return of
+// mMetaLock.Lock (the unlock is deferred to function exit).
+
+//@ ghostdecl mmLockHeld int
+//@ func AddMetricsMetaEntry
+//@   props C14
+//@   assumecalleerequires
+//@   ghostinit ghost(0, "mmLockHeld") == 0
+//@   site callret mMetaLock.Lock #1:
+//@     ghostset ghost(0, "mmLockHeld") = 1
+//@   site call os.OpenFile #1:
+//@     assert [the-meta-file-is-opened-under-the-lock-that-serialises-it-with-the-rewriter] ghost(0, "mmLockHeld") == 1
+//@   site call fd.Write #1:
+//@     assert [the-entry-is-written-under-the-lock] ghost(0, "mmLockHeld") == 1
+//@   note json.Marshal, the logger and the file calls between the lock and the write are unknown to the verifier; sync.(*RWMutex).Lock is listed pure in the engine so that ghost state survives it
+//@ end
+//@ func RemoveMetricsSegments
+//@   props C14
+//@   assumecalleerequires
+//@   ghostinit ghost(0, "mmLockHeld") == 0
+//@   site callret mMetaLock.Lock #1:
+//@     ghostset ghost(0, "mmLockHeld") = 1
+//@   site call removeMetricsSegmentsByList #1:
+//@     assert [the-meta-file-is-rewritten-under-the-lock] ghost(0, "mmLockHeld") == 1
+//@ end
